@@ -4,6 +4,7 @@ import (
 	"fmt"
 	"go/token"
 	"go/types"
+	"os"
 	"sort"
 	"strings"
 
@@ -211,13 +212,16 @@ func runC09(c *Check) {
 	c.MinInstances("C09-R2", 4)
 	ruleRetrieveHelper(c, p, "C09-R3")
 	ruleHelperSequential(c, p, "C09-R11")
+	ruleAdmissionRejectsOnlyForgeries(c, p, "C09-R12")
+	ruleWakeChannelBuffered(c, p, "C09-R13", "RetrieveLoop")
+	c.MinInstances("C09-R13", 1)
 	ruleNilGuard(c, p)
 	ruleHandOffNotUnderDeadline(c, p, "C09-R9")
 	ruleMetricsPreBound(c, p, "C09-R10", []*ssa.Function{p.MustFunc(mgrM("RetrieveLoop"))}, 6)
 	c.MinInstances("C09-R10", 1)
 	c.Doc("C09-R6", "EO: the hand-off of an admitted item to sync cannot be skipped: blocking send, or select with cancellation as the only alternative.")
 	ruleHandOffNotDroppable(c, p)
-	ruleDropDecisionsArePure(c, p)
+	ruleDropDecisionsArePure(c, p, "C09-R8")
 	c.Doc("C09-R7", "VP+GA: the scan cursor starts at the persisted state's DA height raised to the configured start height.")
 	ruleScanStart(c, p)
 }
@@ -869,8 +873,7 @@ func ruleScanStart(c *Check, p *Prog) {
 // particular when it is scanned again after a restart. A decision on mutable node state (the
 // caches and their persisted DA-included marks, the store, heights) drops genuine blobs on the
 // re-scan.
-func ruleDropDecisionsArePure(c *Check, p *Prog) {
-	rule := "C09-R8"
+func ruleDropDecisionsArePure(c *Check, p *Prog, rule string) {
 	c.Doc(rule, "GA+VP: every branch of a DA blob handler that gives the blob up depends only on the blob and on construction-time configuration, never on mutable node state.")
 	root := p.MustFunc(mgrM("RetrieveLoop"))
 	rg := BuildECFG(p, root, ExpandOpts{MaxDepth: 5})
@@ -940,6 +943,13 @@ func ruleDropDecisionsArePure(c *Check, p *Prog) {
 				return x.Op == "field" && mutable[x.Name] && len(x.Args) == 1 && x.Args[0].V != nil && strings.HasSuffix(x.Args[0].V.Type().String(), "block.Manager")
 			}, 2) {
 				stateful = append(stateful, "(through a helper)")
+			}
+			// the local clock is mutable state too: what is scanned now may be dropped, the same
+			// blob scanned a minute later admitted — and the scan does not come back
+			if p.DeepContains(t, func(x *Term) bool {
+				return x.Op == "call" && (x.Name == "time.Now" || x.Name == "time.Since" || x.Name == "time.Until")
+			}, 2) {
+				stateful = append(stateful, "the local clock")
 			}
 			inst := fnShort(h) + " ⟂ gives-up-on " + trunc(t.String(), 70)
 			// a mark that only the consumer side writes says "sync already has this item":
@@ -1140,4 +1150,199 @@ func ruleHelperSequential(c *Check, p *Prog, rule string) {
 		c.Bad(rule, inst, fnName(fn), p.Pos(fn.Pos()), "the retrieval helper starts goroutines ("+strings.Join(gos, ", ")+"): blobs fetched concurrently are collected in completion order, not in the order of the ids — a height with more blobs than one chunk is released out of DA order and the ids handed out with a batch no longer belong to its transactions", nil)
 	}
 	c.MinInstances(rule, 1)
+}
+
+// ruleAdmissionRejectsOnlyForgeries (C09-R12): "every genuine header and data blob at an examined
+// height is handed to sync" — genuine means signed by the genesis proposer, whatever the kind of
+// its key. The predicates by which the DA handlers give a decoded item up (a bool function of the
+// block package applied to the item) therefore reject only for what makes an item not genuine or
+// not decodable: a missing part (nil / no transactions), a signer that is not the genesis
+// proposer, a key mismatch, a failed encoding, a signature that does not verify, a failed
+// validation of the repository's types. Any other rejecting condition — the signature's length,
+// a key type, a size — drops genuine items of some chains for good (the scan moves on).
+func ruleAdmissionRejectsOnlyForgeries(c *Check, p *Prog, rule string) {
+	c.Doc(rule, "FS: every rejecting alternative of an admission predicate the DA handlers apply to a decoded item (a bool function of the block package on the item) contains a fact of an admissible kind: a nil / empty part, an address or key inequality, an error of an encoding / validation / verification call, or a false Verify. A rejection on anything else (e.g. the signature's length) refuses genuine items.")
+	root := p.MustFunc(mgrM("RetrieveLoop"))
+	rg := BuildECFG(p, root, ExpandOpts{MaxDepth: 5})
+	preds := map[*ssa.Function]bool{}
+	for _, sn := range rg.Select(func(x *Node) bool { si := classifySink(x); return si != nil && si.what == "send" }) {
+		h := sn.Ctx.Fn
+		for _, b := range h.Blocks {
+			for _, in := range b.Instrs {
+				call, ok := in.(*ssa.Call)
+				if !ok || call.Common().StaticCallee() == nil {
+					continue
+				}
+				cal := call.Common().StaticCallee()
+				pk := fnPkg(cal)
+				if pk == nil || pk.Pkg.Path() != rootPath+"/block" || cal.Blocks == nil {
+					continue
+				}
+				res := cal.Signature.Results()
+				if res.Len() != 1 || !isBoolType(res.At(0).Type()) {
+					continue
+				}
+				// applied to a decoded item
+				onItem := false
+				for _, a := range call.Common().Args {
+					ts := a.Type().String()
+					if strings.HasSuffix(ts, "types.SignedHeader") || strings.HasSuffix(ts, "types.SignedData") || strings.HasSuffix(ts, "types.Data") {
+						onItem = true
+					}
+				}
+				if onItem {
+					preds[cal] = true
+				}
+			}
+		}
+	}
+	var ps []*ssa.Function
+	for f := range preds {
+		ps = append(ps, f)
+	}
+	sort.Slice(ps, func(i, j int) bool { return fnName(ps[i]) < fnName(ps[j]) })
+	admissible := func(f Fact) bool {
+		t, pol := normFact(f.Cond, f.Pol)
+		s := t.String()
+		switch {
+		case t.Op == "bin" && (t.Name == "==" || t.Name == "!=") && (t.Args[1].unconv().Name == "nil" || t.Args[0].unconv().Name == "nil"):
+			// a nil test of a part (== nil true) or an error result (!= nil true)
+			if (t.Name == "==") == pol {
+				return true // something is nil
+			}
+			for _, a := range t.Args {
+				if a.V != nil && a.V.Type().String() == "error" {
+					return true // an error is non-nil
+				}
+			}
+			return false
+		case (t.Op == "call" || t.Op == "invoke") && !pol:
+			// a bool-valued check came out false: equality of addresses / keys, signature verification
+			return strings.Contains(t.Name, "bytes.Equal") || strings.HasSuffix(t.Name, ").Equals") || strings.HasSuffix(t.Name, ").Verify") || strings.HasSuffix(t.Name, ").Equal")
+		case t.Op == "extract" && !pol:
+			return strings.Contains(s, ").Verify(")
+		case t.Op == "bin" && t.Name == "==" && pol && strings.HasPrefix(t.Args[0].unconv().String(), "len(") && strings.HasSuffix(t.Args[0].unconv().String(), ".Txs)") && strings.HasPrefix(t.Args[1].unconv().Name, "0"):
+			return true // no transactions
+		}
+		return false
+	}
+	n := 0
+	for _, pf := range ps {
+		alts := rejectAltsPerEdge(p, pf)
+		if len(alts) == 0 {
+			c.Unk(rule, fnShort(pf)+" ⟂ rejecting alternatives", fnName(pf), "", "the predicate has no rejecting alternative that could be read")
+			continue
+		}
+		bad := ""
+		for _, alt := range alts {
+			ok := false
+			for _, f := range alt {
+				if admissible(f) {
+					ok = true
+				}
+			}
+			if os.Getenv("VERIF_DEBUG_C09") != "" {
+				fmt.Fprintln(os.Stderr, "DBG alt", fnShort(pf), ok, strings.Join(factStrings(alt), " ; "))
+			}
+			if !ok {
+				bad = strings.Join(factStrings(alt), " ; ")
+			}
+		}
+		n++
+		inst := fnShort(pf) + " ⟂ rejects only what is not genuine"
+		if bad == "" {
+			c.OK(rule, inst, fnName(pf), p.Pos(pf.Pos()), fmt.Sprintf("each of the %d rejecting alternatives is a missing part, a signer / key mismatch, a failed call or a failed verification", len(alts)), true)
+		} else {
+			c.Bad(rule, inst, fnName(pf), p.Pos(pf.Pos()), "the predicate rejects an item on a condition that says nothing about its authenticity ("+trunc(bad, 200)+"): genuine items of a chain that meets the condition (e.g. a proposer whose signatures are not 64 bytes long) are dropped at every scanned height, and the scan does not come back", nil)
+		}
+	}
+	if n == 0 {
+		c.Unk(rule, "admission predicates", "", "", "anchor lost: no bool predicate of the block package applied to a decoded item in the DA handlers")
+	}
+	c.MinInstances(rule, 2)
+}
+
+// rejectAltsPerEdge: the rejecting alternatives of a bool function, one per edge by which a
+// `return false` block is entered (if a || b { return false } gives two alternatives), plus the
+// alternatives of returns that compute their value (return a && b) as RejectDNF reads them.
+func rejectAltsPerEdge(p *Prog, fn *ssa.Function) []FactSet {
+	ctx := &Ctx{Fn: fn}
+	g := BuildECFG(p, fn, ExpandOpts{MaxDepth: 0, RootCtx: ctx})
+	var out []FactSet
+	computed := false
+	for _, x := range g.Exits {
+		ret := x.In.(*ssa.Return)
+		if len(ret.Results) != 1 {
+			continue
+		}
+		k, isK := spilledResult(ret, 0).(*ssa.Const)
+		if !isK {
+			computed = true
+			continue
+		}
+		if k.Value == nil || k.Value.String() != "false" {
+			continue
+		}
+		head := g.heads[g.RootCtx][ret.Block()]
+		if head == nil || len(head.Pred) == 0 {
+			xx := x
+			out = append(out, FactSet(g.NecessaryEdges(func(n *Node) bool { return n == xx })))
+			continue
+		}
+		for _, pr := range head.Pred {
+			pr := pr
+			fs := FactSet(g.NecessaryEdges(func(n *Node) bool { return n == pr }))
+			if pr.Kind == NTrue || pr.Kind == NFalse {
+				if t, pol := CondTerm(pr); t != nil {
+					fs = append(fs, Fact{Cond: t, Pol: pol})
+				}
+			}
+			out = append(out, fs)
+		}
+	}
+	_ = computed
+	for _, x := range g.Exits {
+		ret := x.In.(*ssa.Return)
+		if len(ret.Results) != 1 {
+			continue
+		}
+		v := spilledResult(ret, 0)
+		if _, isK := v.(*ssa.Const); isK {
+			continue
+		}
+		S := ret.Block()
+		head := g.heads[g.RootCtx][S]
+		phi, isPhi := v.(*ssa.Phi)
+		if !isPhi || phi.Block() != S || head == nil {
+			// a value computed elsewhere: false is one alternative
+			xx := x
+			fs := FactSet(g.NecessaryEdges(func(n *Node) bool { return n == xx }))
+			out = append(out, append(fs, Fact{Cond: TermOf(v, ctx), Pol: false}))
+			continue
+		}
+		for i, e := range phi.Edges {
+			pb := S.Preds[i]
+			for _, pr := range head.Pred {
+				if pr.In == nil || pr.In.Block() != pb {
+					continue
+				}
+				pr := pr
+				fs := FactSet(g.NecessaryEdges(func(n *Node) bool { return n == pr }))
+				if pr.Kind == NTrue || pr.Kind == NFalse {
+					if t, pol := CondTerm(pr); t != nil {
+						fs = append(fs, Fact{Cond: t, Pol: pol})
+					}
+				}
+				if k, isK := e.(*ssa.Const); isK {
+					if k.Value != nil && k.Value.String() == "true" {
+						continue
+					}
+				} else {
+					fs = append(fs, Fact{Cond: TermOf(e, ctx), Pol: false})
+				}
+				out = append(out, fs)
+			}
+		}
+	}
+	return out
 }
